@@ -36,8 +36,8 @@ def main() -> None:
         for o in objects(open(path).read()):
             if isinstance(o, dict) and "id" in o and "results" in o:
                 res[o["id"]] = o
-    print("| seeded change | property | what it does | needs | quick check result | first signature |")
-    print("|---|---|---|---|---|---|")
+    print("| seeded change | property | what it does (what it needs: `seeded/<id>/meta.json`) | quick check result | first signature |")
+    print("|---|---|---|---|---|")
     for mid in sorted(res):
         o = res[mid]
         meta = json.load(open(os.path.join(V, "seeded", mid, "meta.json")))
@@ -49,9 +49,8 @@ def main() -> None:
                 m = re.search(r"sig=(\S+)", ln)
                 if m and not sig:
                     sig = m.group(1)[:110]
-        what = (meta.get("what") or meta.get("origin", ""))[:260].replace("|", "\\|")
-        needs = (meta.get("needs") or "")[:260].replace("|", "\\|")
-        print(f"| `{mid}` | {meta['property']} | {what} | {needs} | {'; '.join(verdicts)} | `{sig}` |")
+        what = (meta.get("what") or meta.get("origin", ""))[:230].replace("|", "\\|")
+        print(f"| `{mid}` | {meta['property']} | {what} | {'; '.join(verdicts)} | `{sig}` |")
 
 
 if __name__ == "__main__":
